@@ -32,6 +32,7 @@ fn main() {
     match prop.as_str() {
         "C09" => vabi::c09::run(&mut ctx),
         "C10" => vabi::c10::run(&mut ctx),
+        "C11" => vabi::c11::run(&mut ctx),
         "C15" => vabi::c15::run(&mut ctx),
         _ => ctx.inconclusive(format!("unknown property {}", prop)),
     }
